@@ -25,6 +25,7 @@ META["explanation"] += ' R19.4 also sees SharedReadLock::downgrade; R19.7 also s
 META["explanation"] += ' R19.8 ManuallyDrop ledger: every owned share of the owner counter made in a function (clone of the field, ManuallyDrop::new of a fresh / upgraded Arc) is moved into the counter field of a constructed SharedObservable or released explicitly; a value that only gets borrowed leaks one count per call. R19.9 type ledger: no type other than the counted handles has a field that owns a state reference (Arc / SharedReadLock / Owned*Guard), and the guard types chosen by the Lock impls borrow.'
 META["explanation"] += " R19.10 (async flavour) the completed lock future is re-armed before anything that can run foreign code (the value's Clone, the waker's clone, a closure): a panic in between leaves the subscriber with one reference for the rest of its life. R19.11 no hidden handles: a clone of a SharedObservable / Subscriber made inside the crate is not moved into a closure / future the function returns."
 META["explanation"] += ' R19.12 no handle (Subscriber / SharedObservable) is created before an await inside the async API (it would live in the pending future and be counted).'
+META["explanation"] += ' Shared: the re-arm pairing of the async poll functions (the prepared lock request is one of the counted references only if every completed request is replaced before the poll returns).'
 
 SH = "shared::SharedObservable<"
 
@@ -55,6 +56,11 @@ def run(ctx):
             if "async_lock" in f.path:
                 k += wakers.check_rearm_immediate(ctx, "R19.10", f, sites)
         ctx.floor("R19.10", k, 1)
+        # the ledger counts the references a subscriber owns "at rest": the prepared lock request is one of them, so it has to exist
+        # whenever the subscriber is at rest - the re-arm pairing (every completed request is replaced before the poll returns) says so
+        for f, sites in wakers.poll_fns(F, (EY,)):
+            if "async_lock" in f.path:
+                wakers.check_rearm(ctx, "R02.7", f, sites)
 
 
 def r19_1(ctx, counter):
@@ -173,6 +179,8 @@ def r19_3(ctx):
                 continue
             if s["rv"].get("adt") == "subscriber::Subscriber":
                 # the state field may itself be an AsyncSubscriberState aggregate (counted at its own site) or a handle
+                if "state" not in s["rv"]["fields"]:
+                    continue
                 i = s["rv"]["fields"].index("state")
                 e = b.expr_of_op(s["rv"]["ops"][i])
                 if strip(e, through_calls=False)[0] == "agg":
